@@ -38,6 +38,8 @@ Inductive case13 :=
 | P_rwo (o : rw_opts) (pkg : string) (files : list pkg_file) (steps : list (list string)) (obs : list (oclass * list string))
 (* RNode.DeAnchor on a document with anchors / aliases / merge keys: outcome class and resulting tree *)
 | D_deanchor (doc : anode) (cls : oclass) (out : anode)
+(* … a generated document, inside the model's domain (flat_merges): also the conclusion of C13_deanchor_plain_partial *)
+| D_deanchor_flat (doc : anode) (cls : oclass) (out : anode)
 | P_write (pkg ann : string) (cls : oclass) (mkdir write : string)  (* LocalPackageWriter, one resource, fresh package *)
 | A_read (index : N) (doc after : node) (nonstr : list string)      (* reader annotations set on a decoded document *)
 | A_pkgread (index : N) (path : string) (doc after : node) (nonstr : list string)  (* … with SetAnnotations = path keys (package reader) *)
@@ -98,6 +100,12 @@ Definition agree13 (c : case13) : bool :=
   | D_deanchor doc cls out =>
       match deanchor_doc doc with
       | Ok e => oclass_eqb13 cls COk && anode_eqb e out
+      | r => oclass_eqb13 cls (class_of r)
+      end
+  | D_deanchor_flat doc cls out =>
+      flat_merges false doc &&
+      match deanchor_doc doc with
+      | Ok e => oclass_eqb13 cls COk && anode_eqb e out && alias_free out && merge_free out
       | r => oclass_eqb13 cls (class_of r)
       end
   | P_write pkg ann cls mk wr =>
